@@ -92,6 +92,8 @@ pub enum CmdWrap {
     Required,
     Optional,
     Fallback,
+    /// `construct!([cmd1, cmd2, pure("nocmd")])`: the default is a last alternative
+    PureAlt,
 }
 #[derive(Clone, Debug, PartialEq, Eq, Hash, Serialize, Deserialize)]
 pub struct Level {
@@ -153,9 +155,13 @@ impl Level {
                     .iter()
                     .map(|c| P::Cmd { name: c.name.clone(), shorts: c.shorts.clone(), longs: c.longs.clone(), inner: Box::new(c.level.to_opts()), adjacent: false, help: None })
                     .collect();
+                let mut alts = alts;
+                if *wrap == CmdWrap::PureAlt {
+                    alts.push(P::Pure(Val::s(NOCMD)));
+                }
                 let c = P::Alt(alts);
                 ps.push(match wrap {
-                    CmdWrap::Required => c,
+                    CmdWrap::Required | CmdWrap::PureAlt => c,
                     CmdWrap::Optional => c.opt(),
                     CmdWrap::Fallback => c.fallback(Val::s(NOCMD)),
                 });
@@ -608,7 +614,7 @@ fn parse_level_inner(l: &Level, anc: &[&Level], evs: &[Ev], env: &Env) -> Out {
                 None => match wrap {
                     CmdWrap::Required => return Out::Fail,
                     CmdWrap::Optional => vals.push(Val::No),
-                    CmdWrap::Fallback => vals.push(Val::s(NOCMD)),
+                    CmdWrap::Fallback | CmdWrap::PureAlt => vals.push(Val::s(NOCMD)),
                 },
             }
         }
